@@ -26,6 +26,10 @@ impl<T: Aead> crypto::aead::Aead for RecAead<T> {
     type Key = T::Key;
 
     fn new(key: &Self::Key) -> Self {
+        use aranya_crypto::dangerous::spideroak_crypto::keys::SecretKey as _;
+        if let Ok(b) = key.try_export_secret() {
+            log_push(format!("K {}", hex(b.as_bytes())));
+        }
         Self(T::new(key))
     }
 
@@ -81,3 +85,94 @@ impl<T: Aead> HpkeAead for RecAead<T> {
 impl<T: Aead> Identified for RecAead<T> {
     const OID: &'static Oid = T::OID;
 }
+
+// ---------------------------------------------------------------- hash
+
+use aranya_crypto::dangerous::spideroak_crypto::{
+    hash::Digest,
+    hpke::{HpkeKdf, KdfId},
+    kdf::{KdfError, Prk},
+};
+use aranya_crypto::{Hash, Kdf};
+use std::marker::PhantomData;
+
+/// A hash that forwards to `T` and logs `(input, digest)` when finished.
+#[derive(Clone)]
+pub struct RecHash<T> {
+    inner: T,
+    buf: Vec<u8>,
+}
+
+impl<T: Hash> crypto::hash::Hash for RecHash<T> {
+    type DigestSize = T::DigestSize;
+    const DIGEST_SIZE: usize = T::DIGEST_SIZE;
+
+    fn new() -> Self {
+        Self { inner: T::new(), buf: Vec::new() }
+    }
+
+    fn update(&mut self, data: &[u8]) {
+        self.buf.extend_from_slice(data);
+        self.inner.update(data);
+    }
+
+    fn digest(self) -> Digest<Self::DigestSize> {
+        let d = self.inner.digest();
+        log_push(format!("H {} {}", hex(&self.buf), hex(d.as_bytes())));
+        d
+    }
+}
+
+impl<T: Hash> Identified for RecHash<T> {
+    const OID: &'static Oid = T::OID;
+}
+
+// ---------------------------------------------------------------- kdf
+
+/// A KDF that forwards to `T` and logs the concatenated IKM / info.
+pub struct RecKdf<T>(PhantomData<T>);
+
+impl<T: Kdf> crypto::kdf::Kdf for RecKdf<T> {
+    type MaxOutput = T::MaxOutput;
+    type PrkSize = T::PrkSize;
+
+    fn extract_multi<'a, I>(ikm: I, salt: &[u8]) -> Prk<Self::PrkSize>
+    where
+        I: IntoIterator<Item = &'a [u8]>,
+    {
+        let parts: Vec<&[u8]> = ikm.into_iter().collect();
+        let cat: Vec<u8> = parts.iter().flat_map(|p| p.iter().copied()).collect();
+        let prk = T::extract_multi(parts.iter().copied(), salt);
+        log_push(format!("X {} {} {}", hex(salt), hex(&cat), hex(prk.as_bytes())));
+        prk
+    }
+
+    fn expand_multi<'a, I>(out: &mut [u8], prk: &Prk<Self::PrkSize>, info: I) -> Result<(), KdfError>
+    where
+        I: IntoIterator<Item = &'a [u8], IntoIter: Clone>,
+    {
+        let parts: Vec<&[u8]> = info.into_iter().collect();
+        let cat: Vec<u8> = parts.iter().flat_map(|p| p.iter().copied()).collect();
+        let r = T::expand_multi(out, prk, parts.iter().copied());
+        log_push(format!("E {} {} {}", hex(prk.as_bytes()), hex(&cat), hex(out)));
+        r
+    }
+}
+
+impl<T: Kdf> HpkeKdf for RecKdf<T> {
+    const ID: KdfId = T::ID;
+}
+
+impl<T: Kdf> Identified for RecKdf<T> {
+    const OID: &'static Oid = T::OID;
+}
+
+/// The default cipher suite with recording AEAD, hash and KDF.
+pub type RecCs = aranya_crypto::test_util::TestCs<
+    RecAead<crypto::rust::Aes256Gcm>,
+    RecHash<crypto::rust::Sha256>,
+    RecKdf<crypto::rust::HkdfSha512>,
+    <aranya_crypto::default::DefaultCipherSuite as aranya_crypto::CipherSuite>::Kem,
+    crypto::rust::HmacSha512,
+    crypto::ed25519::Ed25519,
+>;
